@@ -580,8 +580,11 @@ Definition hdrs (f : frame) (j : nat) : bytes := concat (map lhdr (firstn j (fra
 Definition lay (f : frame) (j : nat) : layer := nth j (frame_chain f) dummy_layer.
 (* the layers reported: the frame's first k layers, for some k, with one size each *)
 Definition codes (f : frame) : list N := map (fun x => layer_code (fst x)) (frame_layers f).
+Definition sizes (f : frame) : list N := map snd (frame_layers f).
+(* ... one size per layer, and all sizes but possibly the last one (the header the capture ends in) are the true sizes *)
 Definition layers_ok (m : msg) (f : frame) : Prop :=
-  exists k, mgetLI m cLayerStack = firstn k (codes f) /\ length (mgetLI m cLayerSize) = length (mgetLI m cLayerStack).
+  exists k, mgetLI m cLayerStack = firstn k (codes f) /\ length (mgetLI m cLayerSize) = length (mgetLI m cLayerStack) /\
+            firstn (k - 1) (mgetLI m cLayerSize) = firstn (k - 1) (sizes f).
 (* every column written by a header that lies COMPLETELY inside the first n bytes has the complete frame's value *)
 Definition complete_ok (m0 m : msg) (f : frame) (n : nat) : Prop :=
   forall j k, (j <= length (frame_chain f))%nat -> (length (hdrs f j) <= n)%nat ->
@@ -612,8 +615,10 @@ Lemma stop_layers m0 f j e b ls m : wf_frame f = true ->
   run_layers false m0 [] (firstn j (frame_chain f)) = Some (e, b, ls) -> Inv m b ls -> layers_ok m f.
 Proof.
   intros Hwf Hrun (H1 & H2 & _). apply run_layers_ls in Hrun. cbn [app] in Hrun. subst ls.
-  exists j. split; [|rewrite H1, H2, !map_length; reflexivity].
-  rewrite H1. unfold codes. rewrite (frame_layers_sig f Hwf), firstn_map, firstn_map. reflexivity.
+  exists j. split; [|split; [rewrite H1, H2, !map_length; reflexivity|]].
+  - rewrite H1. unfold codes. rewrite (frame_layers_sig f Hwf), firstn_map, firstn_map. reflexivity.
+  - rewrite H2. unfold sizes. rewrite (frame_layers_sig f Hwf), <- !firstn_map, firstn_firstn.
+    replace (Nat.min (j - 1) j) with (j - 1)%nat by lia. reflexivity.
 Qed.
 
 Lemma step_layers m0 f j e b b' ls m size : wf_frame f = true -> (j < length (frame_chain f))%nat ->
@@ -621,11 +626,15 @@ Lemma step_layers m0 f j e b b' ls m size : wf_frame f = true -> (j < length (fr
   Inv m b' (ls ++ [(lp (lay f j), size)]) -> layers_ok m f.
 Proof.
   intros Hwf Hj Hrun (H1 & H2 & _). apply run_layers_ls in Hrun. cbn [app] in Hrun. subst ls.
-  exists (S j). split; [|rewrite H1, H2, !map_length; reflexivity].
-  rewrite H1. unfold codes. rewrite (frame_layers_sig f Hwf), map_map.
-  rewrite (firstn_S_nth _ j (layer_code (lp dummy_layer))) by (rewrite map_length; exact Hj).
-  rewrite map_app, map_map. cbn [map fst]. rewrite firstn_map. f_equal. unfold lay.
-  f_equal. symmetry. exact (map_nth (fun x => layer_code (fst (lsig x))) (frame_chain f) dummy_layer j).
+  exists (S j). split; [|split; [rewrite H1, H2, !map_length; reflexivity|]].
+  - rewrite H1. unfold codes. rewrite (frame_layers_sig f Hwf), map_map.
+    rewrite (firstn_S_nth _ j (layer_code (lp dummy_layer))) by (rewrite map_length; exact Hj).
+    rewrite map_app, map_map. cbn [map fst]. rewrite firstn_map. f_equal. unfold lay.
+    f_equal. symmetry. exact (map_nth (fun x => layer_code (fst (lsig x))) (frame_chain f) dummy_layer j).
+  - rewrite H2. cbn [Nat.sub]. rewrite Nat.sub_0_r. unfold sizes. rewrite (frame_layers_sig f Hwf), map_app, <- !firstn_map.
+    set (T := map snd (map lsig (frame_chain f))).
+    assert (HT : length (firstn j T) = j) by (rewrite firstn_length; unfold T; rewrite !map_length; lia).
+    rewrite <- HT at 1. rewrite firstn_exact. reflexivity.
 Qed.
 
 Lemma frame_prefix_run m0 f j : wf_frame f = true -> base_ok m0 ->
